@@ -273,7 +273,13 @@ def load_inputs(chk):
         var = rng.sample(var, min(len(var), 2000))
     for k, f in fixed + trunc + var:
         cases.append(("c19:" + k, f, "build.ninja"))
-    return cases
+    return [c for c in cases if not nul_in_include(c[1])]
+
+
+def nul_in_include(files):
+    """a path with a NUL byte reaches the operating system truncated (C strings): `subninja sub.ninja\0` opens sub.ninja,
+    which the file MAP of the loader model cannot express; such trees take part in the parser differential only"""
+    return any(b"\x00" in c for c in files.values()) and any(b"include" in c or b"subninja" in c for c in files.values())
 
 
 def load_part(chk, only=None):
@@ -348,6 +354,7 @@ def run(chk):
             shutil.rmtree(SANDBOX, ignore_errors=True)
     chk.assumptions = ["ManifestLoader reads an included file when it reaches the include; the model parses every file of the map up front (parsing depends on the bytes only)",
                        "the file map of the end-to-end part is keyed by make_absolute(wd, relative name): includes that spell an existing file differently are not generated",
+                       "a tree in which a NUL byte and an include / subninja occur is excluded from the end-to-end part (the path reaches the OS truncated at the NUL)",
                        "Token line/column numbers are modelled but not compared (the recording driver prints texts only)"]
     return chk.finish(level="proof", rule=RULE,
                       trusted=["hand-written models coq/Parse/NinjaParse.v, NinjaLex.v, NinjaEval.v tied by differential execution", "harness/cpp/ninja_driver.cpp",
